@@ -17,10 +17,16 @@ continues PcProps/C16Safety.lean and C16Safety3.lean).  Only property theorems, 
   recursion level, the thread-private copies and the reduction checked.
 * `PcProofs/SafetyLeaf.lean`, `SafetyLeafOmp.lean`: checked = unchecked as soon as the absolute sum of all ordinary leaves
   `absG = Σ_n φ(x/n, c)` fits; the leaves are distinct numbers `n ≤ z`, so `absG ≤ Σ_{n ≤ z} ⌊x/n⌋ ≤ x·k` for `z < 2^k`.
+
+## A / C (src/gourdon/AC.cpp) — `T` is UNSIGNED (`uint64_t` / `uint128_t`), converted to the signed return type at the end
+* `PcModel/SafetyAC.lean`: `wrapS N v` = what an `N`-bit unsigned accumulation of true value `v` becomes after the conversion.
+* `PcProofs/SafetyACAbs.lean`: every sum of `Cterm` over any set of levels (C1 and C2 kernels, signed terms) is within `±x·k`
+  (`z² < 2^k`); with `0 ≤ A ≤ 12x` (wp-safety3): `−x·k ≤ A + C ≤ 12x + x·k`.  No mirror of the kernels (see notes/wp-safety4.md).
 -/
 import PcProofs.SafetyHardAbs
 import PcProofs.HardExamples
 import PcProofs.SafetyLeafOmp
+import PcProofs.SafetyACWrap
 
 namespace Pc.C16Safety4
 open Pc Pc.Hard Nat Finset
@@ -160,6 +166,35 @@ example : accS 10 7 5 = .error .ovfAcc := by decide
 example : accS 10 (-7) (-5) = .error .ovfAcc := by decide
 example : mulS 10 (-1) 12 = .error .ovfProd := by decide
 
+/-! ## A / C -/
+
+/-- **magnitude of `C` on ALL levels (kernels `C1` and `C2`)**: every sum of `Cterm` over any set of levels `i ≥ 1`, `p_i ≤ z` —
+    so every level-by-level partial sum — lies in `[−x·k, x·k]` when `z² < 2^k` -/
+theorem C_levels_bounded (x y z k : ℕ) (S : Finset ℕ) (hS : ∀ i ∈ S, 1 ≤ i ∧ Spec.p i ≤ z) (hk : z * z < 2 ^ k) :
+    |∑ i ∈ S, Spec.Cterm x y z i| ≤ ((x * k : ℕ) : ℤ) :=
+  Pc.Safety.C_levels_abs_le x y z k S hS hk
+
+/-- **`AC_OpenMP`'s result after the conversion `uintN → intN`** (`A + C` accumulated modulo `2^N`): it is the true value
+    `A + C` whenever `12x + x·k < 2^(N−1)`, `z² < 2^k`, `w ≤ z` (`w = x⋆`).  `N = 128`: every `x ≤ 2^119`, `z < 2^63`
+    (second statement) — FULL for primecount's range `x ≤ 10^31`.  `N = 64`: partial (`x ≲ 10^17`, see notes). -/
+theorem AC_return_value (bits x y z k0 w c3 k : ℕ) (hb : 1 ≤ bits) (hw : w ≤ z) (hk : z * z < 2 ^ k)
+    (hfit : 12 * x + x * k < 2 ^ (bits - 1)) :
+    Pc.Safety.wrapS bits (Spec.A x y w c3 + Spec.C x y z k0 w) = Spec.A x y w c3 + Spec.C x y z k0 w := by
+  obtain ⟨h1, h2⟩ := Pc.Safety.AC_value_bounds x y z k0 w c3 k hw hk
+  have h3 : ((12 * x + x * k : ℕ) : ℤ) < ((2 ^ (bits - 1) : ℕ) : ℤ) := by exact_mod_cast hfit
+  push_cast at h3
+  apply Pc.Safety.wrapS_eq hb <;> push_cast at h1 h2 ⊢ <;> nlinarith
+
+theorem AC_return_value_128 (x y z k0 w c3 : ℕ) (hw : w ≤ z) (hz : z < 2 ^ 63) (hx : x ≤ 2 ^ 119) :
+    Pc.Safety.wrapS 128 (Spec.A x y w c3 + Spec.C x y z k0 w) = Spec.A x y w c3 + Spec.C x y z k0 w := by
+  apply AC_return_value 128 x y z k0 w c3 126 (by norm_num) hw
+  · have : z * z < 2 ^ 63 * 2 ^ 63 := Nat.mul_lt_mul'' hz hz
+    norm_num at this ⊢; omega
+  · norm_num; omega
+
+example : Pc.Safety.wrapS 64 (2 ^ 63) = -2 ^ 63 := by decide
+example : Pc.Safety.wrapS 64 (-5) = -5 := by decide
+
 end Pc.C16Safety4
 
 #print axioms Pc.C16Safety4.S2_hard_thread_no_overflow
@@ -171,3 +206,6 @@ end Pc.C16Safety4
 #print axioms Pc.C16Safety4.S1_no_overflow
 #print axioms Pc.C16Safety4.Phi0_no_overflow
 #print axioms Pc.C16Safety4.S1_Phi0_128_no_overflow
+#print axioms Pc.C16Safety4.C_levels_bounded
+#print axioms Pc.C16Safety4.AC_return_value
+#print axioms Pc.C16Safety4.AC_return_value_128
